@@ -1074,9 +1074,13 @@ class PandasModelBase(
         self.drop_indices(res)
         if scratch_col is not None:
             del res[scratch_col]
-        on_a_set = set(op.on_a)
+        # columns joined to a column of the same name are merged by pandas.merge itself; every
+        # other shared column (a key of one side only, too) comes back as a pair to coalesce
+        same_name_keys = set(
+            [c_a for c_a, c_b in zip(op.on_a, op.on_b) if c_a == c_b]
+        )
         for c in common_cols:
-            if c not in on_a_set:
+            if c not in same_name_keys:
                 is_null = res[c].isnull()
                 res.loc[is_null, c] = res.loc[is_null, c + "_tmp_right_col"]
                 res = res.drop(c + "_tmp_right_col", axis=1, inplace=False)
